@@ -147,6 +147,10 @@ class TreePass(BasePass):
                 out = ('await-returned',)
             except RuntimeError as e:
                 out = ('await-raised', 'cancel' in str(e).lower())
+        elif s == 'raise_late':
+            f = r.map(boom, [1, 2, 3])
+            b = await r.next(f)          # take the first answer(s) and return: the failing sibling may report later
+            out = ('first', len(b) >= 1)
         elif s == 'raise_leaf':
             out = tuple(await r.map(boom, [1, 2, 3]))
         elif s == 'raise_nested':
@@ -186,7 +190,7 @@ ONCE = {
 }
 CANCEL_SHAPES = ('cancel_map', 'cancel_after_next', 'cancel_nested', 'await_cancelled', 'client_cancel',
                  'client_disconnect')
-RAISE_SHAPES = ('raise_leaf', 'raise_nested')
+RAISE_SHAPES = ('raise_leaf', 'raise_nested', 'raise_late')
 
 
 async def hold(x: int) -> tuple:
@@ -202,7 +206,37 @@ class HoldPass(BasePass):
         data['out'] = await get_runtime().submit(hold, 1)
 
 
+def wait_quiet() -> None:
+    """Client-side pause until nothing else in the system can move (every in-flight message delivered)."""
+    if WORLD:
+        s = WORLD[0].sched
+        me = s.current
+        s.park(lambda: not any(t is not me for t in s.enabled_raw(me)), 'client-wait-quiescence')
+
+
 def client_script(shape: str, mode: str = 'compile') -> Any:
+    if shape == 'raise_late':
+        def script3(c: Any) -> Any:
+            seen = []
+            tid = None
+            for step in ('submit+result', 'status-after-quiescence'):
+                try:
+                    if step == 'submit+result':
+                        tid = c.submit(Circuit(1), [TreePass(shape)], request_data=True)
+                        c.result(tid)
+                    else:
+                        wait_quiet()
+                        c.status(tid)
+                    seen.append('ok')
+                except Exception as e:  # noqa
+                    chain, x = [], e
+                    while x is not None and len(chain) < 5:
+                        chain.append(str(x)[-300:])
+                        x = x.__cause__
+                    seen.append(' <- '.join(chain))
+                    break
+            return ('late', tuple(seen))
+        return script3
     if shape in ('client_cancel', 'client_disconnect'):
         def script2(c: Any) -> Any:
             try:
